@@ -169,19 +169,20 @@ static std::string step(const Toks& t)
 		std::string l = instLine(ms, why);
 		return l + (why.empty() ? " or=ok" : " or=BAD:" + why);
 	}
-	if (op == "scan" && t.size() == 4 && isInt(t[1]) && isInt(t[2]) && isInt(t[3])) {
-		ll d0 = num(t[1]), n = num(t[2]), sod = num(t[3]);
-		if (n < 0 || d0 < DAY_MIN || d0 + n > DAY_MAX + 1 || n > 100000 || sod < 0 || sod >= 86400) return "range";
+	bool oracleOnly = (op == "oscan" || op == "osecs");   // impl judged by the built-in oracle only; the model answers "ok"
+	if ((op == "scan" || op == "oscan") && t.size() == 5 && isInt(t[1]) && isInt(t[2]) && isInt(t[3]) && isInt(t[4])) {
+		ll d0 = num(t[1]), n = num(t[2]), sod = num(t[3]), st = num(t[4]);
+		if (n < 0 || st < 1 || st > 1000 || d0 < DAY_MIN || d0 + st * (n - 1) > DAY_MAX || n > 100000 || sod < 0 || sod >= 86400) return "range";
 		uint64_t h = 14695981039346656037ULL;
 		std::string why;
 		for (ll i = 0; i < n; i++) {
-			ll day = d0 + i, ms = (day * 86400 + sod) * 1000 + msOfDay(day);
+			ll day = d0 + st * i, ms = (day * 86400 + sod) * 1000 + msOfDay(day);
 			h = fnv(h, instLine(ms, why));
 			if (!why.empty()) return "bad " + str(ms) + why;
 		}
-		return "ok " + u64(h);
+		return oracleOnly ? std::string("ok") : "ok " + u64(h);
 	}
-	if (op == "secs" && t.size() == 4 && isInt(t[1]) && isInt(t[2]) && isInt(t[3])) {
+	if ((op == "secs" || op == "osecs") && t.size() == 4 && isInt(t[1]) && isInt(t[2]) && isInt(t[3])) {
 		ll day = num(t[1]), s0 = num(t[2]), n = num(t[3]);
 		if (n < 0 || day < DAY_MIN || day > DAY_MAX || s0 < 0 || s0 + n > 86400) return "range";
 		uint64_t h = 14695981039346656037ULL;
@@ -191,7 +192,7 @@ static std::string step(const Toks& t)
 			h = fnv(h, instLine(ms, why));
 			if (!why.empty()) return "bad " + str(ms) + why;
 		}
-		return "ok " + u64(h);
+		return oracleOnly ? std::string("ok") : "ok " + u64(h);
 	}
 	return "bad-op";
 }
